@@ -99,14 +99,31 @@ def respTag (i : StapleIn) : String :=
     | .answer r => "+" ++ (match r.status with | .good => "g" | .revoked => "r" | .unknown => "u") ++
         (if answerVerifies r then "" else "V") ++ (if current i.now r then "" else "x") ++ (if pastExpiry i r then "E" else ""))
 
+/-- nanoseconds from the zero `time.Time` (January 1, year 1) to the Unix epoch -/
+def zeroToUnix : Int := 62135596800000000000
+
+/-- the TRANSLATED `freshOCSP` agrees with the model's `fresh` (instants shifted to count from the zero time;
+cases outside the hypotheses of `C14_tie_fn_freshOCSP` — more than 292 years apart — are not compared) -/
+def genFreshAgrees (now : Int) (r : Resp) : Bool :=
+  let K := zeroToUnix
+  let near : Int → Bool := fun x => decide (x - r.thisUpdate ≤ 9223372036854775807) && decide (-9223372036854775808 ≤ x - r.thisUpdate)
+  let inScope := decide (r.thisUpdate + K > 9223372036854775808) &&
+    (match r.nextUpdate with | some nu => decide (nu + K > 0) && near nu | none => true) &&
+    (match r.responderNotAfter with | some ca => decide (ca + K > 0) && near ca | none => true)
+  !inScope ||
+  CM.Gen.Fn.freshOCSP (now + K)
+    { ThisUpdate := r.thisUpdate + K, NextUpdate := (r.nextUpdate.map (· + K)).getD 0, Status := 0,
+      Certificate := r.responderNotAfter.map (fun ca => ⟨ca + K⟩) } == fresh now r
+
 /-- the TRANSLATED `currentOCSP` (CM/Generated/Fn, printed from the source on this run) agrees with the
 model's `current` on the responses of this line (absent NextUpdate = the zero time) -/
 def genCurrentAgrees (i : StapleIn) : Bool :=
   let rs : List Resp := (match i.persisted with | .parsed r => [r] | _ => []) ++
     (match i.responder with | .answer r => [r] | _ => [])
-  !(CM.Gen.Fn.translated.contains "currentOCSP") ||
-  rs.all (fun r => r.nextUpdate == some 0 ||
-    CM.Gen.Fn.currentOCSP i.now ⟨r.thisUpdate, r.nextUpdate.getD 0, 0⟩ == current i.now r)
+  (!(CM.Gen.Fn.translated.contains "currentOCSP") ||
+   rs.all (fun r => r.nextUpdate == some 0 ||
+    (CM.Gen.Fn.currentOCSP i.now ⟨r.thisUpdate, r.nextUpdate.getD 0, 0, none⟩ == current i.now r))) &&
+  (!(CM.Gen.Fn.translated.contains "freshOCSP") || rs.all (fun r => genFreshAgrees i.now r))
 
 def handle (args impl : List String) : String :=
   match args with
@@ -143,7 +160,7 @@ def handle (args impl : List String) : String :=
       let code : Status → Int := fun st => match st with | .good => 0 | .revoked => 1 | .unknown => 2
       let genForce := CM.Gen.Fn.certShouldBeForceRenewed
         ⟨(if e.hasNames then ["n".toList] else []), e.managed,
-         e.ocsp.map (fun r => ⟨r.thisUpdate, r.nextUpdate.getD 0, code r.status⟩)⟩
+         e.ocsp.map (fun r => ⟨r.thisUpdate, r.nextUpdate.getD 0, code r.status, none⟩)⟩
       if CM.Gen.Fn.translated.contains "certShouldBeForceRenewed" && genForce != shouldForce e.managed e.hasNames e.ocsp then
         reply "translated-definition-differs-from-model" "-" "!" else
       let m := maintain e i (sc = "1") renew
